@@ -32,7 +32,7 @@ FAMILY = param("C20_FAMILY", quick=0, thorough=0)   # 0: module level, 1: class 
 merge_pyi._merge_csts = untraced(merge_pyi._merge_csts)  # pylint: disable=protected-access
 
 VAR_TYPES = [None, "str", "list[int]", "Any", "Never", "Optional[int]"]
-PARAM_TYPES = ["int", "list[int]", "Any", "T", "Optional[int]"]
+PARAM_TYPES = ["int", "list[int]", "Any", "T", "Optional[int]", "Decimal"]
 RET_TYPES = ["int", "Any", "Never", "list[int]", "T", None]
 NFUNC = 6
 TRIVIAL = ("int", "str", "float", "bool", "complex")
@@ -40,7 +40,10 @@ TRIVIAL = ("int", "str", "float", "bool", "complex")
 if FAMILY == 0:
   RANGES = [3, len(VAR_TYPES), NFUNC, len(PARAM_TYPES), len(RET_TYPES)]
 else:
-  RANGES = [4, 4, len(PARAM_TYPES), len(RET_TYPES), 2]
+  # last selector: 0 = first merge of the process state, 1 = preceded by the
+  # merge of a fixed pair whose stub needs a non-typing import (the merged text
+  # of a pair must not depend on what was merged before it)
+  RANGES = [4, 4, len(PARAM_TYPES), len(RET_TYPES), 2, 2]
 SEL = Tuple[(int,) * len(RANGES)]
 
 
@@ -75,6 +78,8 @@ def _stub_header(types):
     out += "from typing import %s\n" % ", ".join(names)
   if "TypeVar" in names:
     out += "T = TypeVar('T')\n"
+  if "Decimal" in [t for t in types if t]:
+    out += "from decimal import Decimal\n"
   return out
 
 
@@ -129,7 +134,7 @@ def build(d):
       exp["f.inner.a"] = None
       exp["f.inner.return"] = None
     return py, pyi, exp, existing
-  cform, ct, pt, rt, dstub = d
+  cform, ct, pt, rt, dstub, _ = d
   ptype, rtype = PARAM_TYPES[pt], RET_TYPES[rt]
   ctype = [None, "int", "list[int]", "Any"][ct]
   py = "class A:\n  c = g()\n"
@@ -160,6 +165,9 @@ def build(d):
   return py, pyi, exp, existing
 
 
+HIST_PY = "def price(q):\n  return q\n"
+HIST_PYI = "from fractions import Fraction\ndef price(q: Fraction) -> Fraction: ...\n"
+
 # ---------------------------------------------------------------------------
 # Oracle on the output (CPython ast; concrete data, outside the tracer).
 class _Strip(ast.NodeTransformer):
@@ -183,7 +191,7 @@ class _Strip(ast.NodeTransformer):
     return ast.copy_location(ast.Assign(targets=[node.target], value=node.value), node)
 
 
-def _stripped_dump(src, original_src=None):
+def _stripped_dump(src, original_src=None, stub_src=None):
   tree = ast.parse(src)
   if original_src is not None:
     orig_top = {ast.dump(n) for n in ast.parse(original_src).body}
@@ -192,6 +200,10 @@ def _stripped_dump(src, original_src=None):
       added = ast.dump(n) not in orig_top
       if added and isinstance(n, ast.ImportFrom) and n.module in ("typing", "typing_extensions"):
         continue
+      if added and isinstance(n, (ast.ImportFrom, ast.Import)) and all(
+          (a.asname or a.name).split(".")[0] in (_annotation_names(src) | _annotation_names(stub_src or ""))
+          for a in n.names):
+        continue   # an import for the annotations of THIS stub (the merge's typing imports)
       if (added and isinstance(n, ast.Assign) and isinstance(n.value, ast.Call) and
           isinstance(n.value.func, ast.Name) and n.value.func.id == "TypeVar"):
         continue
@@ -199,6 +211,22 @@ def _stripped_dump(src, original_src=None):
     tree.body = body
   tree = _Strip().visit(tree)
   return ast.dump(tree)
+
+
+def _annotation_names(src):
+  """Names occurring inside annotations of src."""
+  names = set()
+  for n in ast.walk(ast.parse(src)):
+    anns = []
+    if isinstance(n, ast.arg) and n.annotation is not None:
+      anns.append(n.annotation)
+    elif isinstance(n, (ast.FunctionDef, ast.AsyncFunctionDef)) and n.returns is not None:
+      anns.append(n.returns)
+    elif isinstance(n, ast.AnnAssign):
+      anns.append(n.annotation)
+    for a in anns:
+      names.update(x.id for x in ast.walk(a) if isinstance(x, ast.Name))
+  return names
 
 
 def _annotations(src):
@@ -239,7 +267,7 @@ def judge(py, pyi, merged, exp, existing):
     compile(merged, "<merged>", "exec")
   except SyntaxError as e:
     return ["1: merged source does not compile: %s" % e]
-  if _stripped_dump(merged, py) != _stripped_dump(py):
+  if _stripped_dump(merged, py, pyi) != _stripped_dump(py):
     bad.append("2: syntax tree changed beyond annotations / typing imports / TypeVar definitions")
   got = _annotations(merged)
   stub = _annotations(pyi)
@@ -285,6 +313,8 @@ def h_merge(s: SEL) -> bool:
   py, pyi, exp, existing = build(d)
   if kf_skip(kf_class(d)):
     return True
+  if FAMILY == 1 and d[-1] == 1:
+    merge_pyi.merge_sources(py=HIST_PY, pyi=HIST_PYI)
   merged = merge_pyi.merge_sources(py=py, pyi=pyi)
   bad = judge(py, pyi, merged, exp, existing)
   record("M %d %r %s" % (FAMILY, d, "N" if inserted(py, merged) else "T"))
@@ -295,6 +325,8 @@ def explain(fn, s):
   d = tuple(int(x) for x in s)
   py, pyi, exp, existing = build(d)
   try:
+    if FAMILY == 1 and d[-1] == 1:
+      merge_pyi.merge_sources(py=HIST_PY, pyi=HIST_PYI)
     merged = merge_pyi.merge_sources(py=py, pyi=pyi)
     bad = judge(py, pyi, merged, exp, existing)
   except Exception as e:  # pylint: disable=broad-except
